@@ -364,6 +364,60 @@ func runC12(c *Ctx) {
 				}
 			}
 		}
+		// a combo that already carries figures (a stored document rebuilt, a key edited
+		// on a calculated document): with a rate key the table decides both percentage
+		// and surcharge, whatever was there before
+		if p.ValueDateMode == "issue" && (rate.Exempt || len(rate.Values) > 0) {
+			for _, pre := range []map[string]string{{"percent": "99.9%", "surcharge": "9.9%"}, {"surcharge": "9.9%"}, {"percent": "99.9%"}} {
+				cb := map[string]any{"cat": p.Cat, "rate": p.Rate}
+				if len(p.Ext) > 0 {
+					cb["ext"] = p.Ext
+				}
+				for k, v := range pre {
+					cb[k] = v
+				}
+				inv := map[string]any{
+					"$schema": "https://gobl.org/draft-0/bill/invoice", "$regime": p.Regime, "code": "T-3", "issue_date": p.Date, "currency": reg.Currency,
+					"supplier": map[string]any{"name": "Supplier", "tax_id": map[string]any{"country": p.Regime}},
+					"customer": map[string]any{"name": "Customer"},
+					"lines": []any{map[string]any{"quantity": "1", "item": map[string]any{"name": "thing", "price": "100.00"}, "taxes": []any{cb}}},
+				}
+				docJSON, _ := json.Marshal(inv)
+				var out []byte
+				var cerr error
+				if pan, _ := Safely(func() {
+					env, err := gx.EnvelopDoc(docJSON)
+					if cerr = err; err == nil {
+						out, cerr = json.Marshal(env)
+					}
+				}); pan != nil {
+					continue
+				}
+				c.R.Count("path_invoice_stored_figures", 1)
+				g1, g2 := "", ""
+				if cerr == nil {
+					var e struct {
+						Doc struct {
+							Lines []struct {
+								Taxes []struct {
+									Percent   string `json:"percent"`
+									Surcharge string `json:"surcharge"`
+								} `json:"taxes"`
+							} `json:"lines"`
+						} `json:"doc"`
+					}
+					if json.Unmarshal(out, &e) == nil && len(e.Doc.Lines) == 1 && len(e.Doc.Lines[0].Taxes) == 1 {
+						g1, g2 = e.Doc.Lines[0].Taxes[0].Percent, e.Doc.Lines[0].Taxes[0].Surcharge
+					}
+				}
+				if (cerr != nil) != wantErr || (cerr == nil && (!pctEq(g1, wantPct) || !pctEq(g2, wantSur))) {
+					c.R.Fail(fmt.Sprintf("%s:%s:%s:%s:invoice:stored-figures", cls, p.Regime, p.Cat, p.Rate),
+						fmt.Sprintf("invoice %s issue=%s line tax %s/%s entered with %v got percent=%q surcharge=%q err=%v; table value in force is %q/%q (error expected=%v)", p.Regime, p.Date, p.Cat, p.Rate, pre, g1, g2, cerr, wantPct, wantSur, wantErr),
+						map[string]any{"point": p, "doc": json.RawMessage(docJSON)})
+					break
+				}
+			}
+		}
 		// which table a key resolves to: an extended key without a table of its own
 		// takes the value of its component; a key that merely ends in the name of a
 		// defined one (not separated by '+') belongs to no table and is refused
